@@ -2,6 +2,7 @@ import Holpy.C18.ProofsRes
 import Holpy.C18.ProofsHyps
 import Holpy.C18.ProofsEq
 import Holpy.C18.ProofsSimp
+import Holpy.C18.ProofsSimpB
 import Holpy.C18.ProofsSimp2
 import Holpy.C18.ProofsCong
 namespace Holpy.C18
